@@ -32,6 +32,9 @@ Qed.
 Lemma addr_eqb_true a b : addr_eqb a b = true -> a = b.
 Proof. intros H. destruct (addr_eqb_spec a b); auto; discriminate. Qed.
 
+Lemma ret_eqb_eq r q : ret_eqb r q = true -> r = q.
+Proof. destruct r, q; cbn; intros H; try discriminate; auto. Qed.
+
 Lemma pc_eqb_eq p q : pc_eqb p q = true -> p = q.
 Proof.
   destruct p, q; cbn; intros H; try discriminate; auto;
@@ -40,17 +43,22 @@ Proof.
            | H : (_ =? _)%N = true |- _ => apply N.eqb_eq in H; subst
            | H : addr_eqb _ _ = true |- _ => apply addr_eqb_true in H; subst
            | H : Nat.eqb _ _ = true |- _ => apply Nat.eqb_eq in H; subst
+           | H : Bool.eqb _ _ = true |- _ => apply Bool.eqb_prop in H; subst
+           | H : ret_eqb _ _ = true |- _ => apply ret_eqb_eq in H; subst
            end; auto.
 Qed.
 
 Lemma thread_eqb_eq a b : thread_eqb a b = true -> a = b.
 Proof.
-  destruct a as [p1 d1 b1 r1], b as [p2 d2 b2 r2]; unfold thread_eqb; cbn. intros H.
+  destruct a as [p1 d1 b1 c1 r1], b as [p2 d2 b2 c2 r2]; unfold thread_eqb; cbn. intros H.
   apply andb_prop in H. destruct H as [H Hr].
+  apply andb_prop in H. destruct H as [H Hc].
   apply andb_prop in H. destruct H as [H Hb].
   apply andb_prop in H. destruct H as [Hp Hd].
   apply pc_eqb_eq in Hp. apply Bool.eqb_prop in Hd. apply Bool.eqb_prop in Hb.
-  assert (r1 = r2) by (destruct r1, r2; cbn in Hr; try discriminate; auto).
+  apply ret_eqb_eq in Hr.
+  assert (c1 = c2).
+  { destruct c1 as [v|], c2 as [w|]; try discriminate; auto. apply Bool.eqb_prop in Hc. subst; auto. }
   subst. reflexivity.
 Qed.
 
